@@ -46,6 +46,10 @@ func init() {
 	// sweep: the property itself on the real code, with Go's html.UnescapeString as decoder
 	Register("C24-sweep", func(c *Ctx) {
 		seen := 0
+		// results are kept and compared again at the end: a returned value must not change when
+		// HTMLEscape is called again (e.g. through a shared buffer)
+		type kept struct{ in, out string }
+		var keep []kept
 		htmlEscapeInputs(c, func(s string) {
 			c.Count("evaluations")
 			var out, out2 string
@@ -65,6 +69,9 @@ func init() {
 				c.Fail("does-not-decode", map[string]string{"fn": "HTMLEscape", "in": Hx(s), "out": Hx(out), "decoded": Hx(html.UnescapeString(out))})
 				return
 			}
+			if len(keep) < 200000 {
+				keep = append(keep, kept{s, out})
+			}
 			if out != s {
 				c.Count("nontrivial")
 				if seen < 3 {
@@ -73,6 +80,12 @@ func init() {
 				}
 			}
 		})
+		for _, k := range keep {
+			if why := checkFiveEntities(k.in, k.out); why != "" {
+				c.Fail("result-changed-later", map[string]string{"fn": "HTMLEscape", "in": Hx(k.in), "out_now": Hx(k.out), "why": why})
+				break
+			}
+		}
 	})
 }
 
